@@ -18,8 +18,8 @@ LEVEL = "model_checking"
 PROFILES_QUICK = [
     {"block_size": 1 << 20, "sector": 512, "k": 1, "full": True, "cap": 40},
     {"block_size": 256 << 20, "sector": 512, "k": 8, "full": False, "max_len": 2 << 20, "sel": 2},   # ratio 16: SB entries interleaved
-    {"block_size": 2 << 20, "sector": 4096, "k": 1, "full": False, "sel": 2, "stale": True},
-    {"block_size": 1 << 20, "sector": 512, "k": 1, "full": False, "sel": 3, "stale": True},
+    {"block_size": 2 << 20, "sector": 4096, "k": 1, "full": False, "sel": 2, "stale": True, "phys": 512},   # physical sector smaller than the logical one
+    {"block_size": 1 << 20, "sector": 512, "k": 1, "full": False, "sel": 3, "stale": True, "phys": 512},
     {"block_size": 1 << 20, "sector": 512, "k": 1, "full": False, "sel": 3, "leave_alloc": True},   # "fixed" flag set, blocks in any order
     {"block_size": 32 << 20, "sector": 4096, "k": 512, "full": False, "max_len": 2 << 20, "sel": 5},  # 4K sectors, ratio 1024, > 1500 BAT entries
     {"block_size": 32 << 20, "sector": 512, "k": 64, "full": False, "max_len": 2 << 20, "sel": 4, "base_mb": 5 << 20},  # ratio 128, data beyond 2^42 bytes
@@ -29,7 +29,7 @@ PROFILES_QUICK = [
 ]
 PROFILES_THOROUGH = PROFILES_QUICK + [
     {"block_size": 1 << 20, "sector": 4096, "k": 4096, "full": False, "max_len": 2 << 20, "sel": 8},  # 4K sectors, > 12000 BAT entries
-    {"block_size": 1 << 20, "sector": 4096, "k": 1, "full": True, "cap": 40, "sel": 3},
+    {"block_size": 1 << 20, "sector": 4096, "k": 1, "full": True, "cap": 40, "sel": 3, "phys": 512},
     {"block_size": 8 << 20, "sector": 512, "k": 1, "full": False, "base_mb": (1 << 43) // (1 << 20), "sel": 3},  # near the 44-bit MB field limit
     {"block_size": 256 << 20, "sector": 4096, "k": 64, "full": False, "max_len": 2 << 20, "sel": 4},  # ratio 128
 ]
@@ -60,7 +60,7 @@ def build(img, prof, size_bytes=None):
     vf, info = enc_vhdx.build(blocks, block_size=bs, sector_size=prof["sector"], disk_size=size_b,
                               data_base_mb=prof.get("base_mb"), seqs=prof.get("seqs", (5, 6)),
                               reserved_bits=prof.get("reserved_bits", 0), leave_alloc=prof.get("leave_alloc", False),
-                              layout=prof.get("layout", "std"), meta_place=((lambda n_: list(range(n_))[::-1]) if prof.get("meta_shuffle") else None))
+                              layout=prof.get("layout", "std"), phys_sector=prof.get("phys", 4096), meta_place=((lambda n_: list(range(n_))[::-1]) if prof.get("meta_shuffle") else None))
     return disk.Built(open=lambda: _open(vf), cell=cell, size=size_b, bases={0: info["data_base"]}, files=[vf],
                       note={k_: v for k_, v in prof.items() if k_ != "when"}, cb=cb, stride=ab, sector=prof["sector"])
 
@@ -69,8 +69,10 @@ def make_trace(tid, rng, nops=25, **opt):
     sector = rng.choice([512, 512, 4096])
     bs = rng.choice([1 << 20, 1 << 20, 2 << 20, 8 << 20])
     n = rng.randrange(2, 40 if bs == (1 << 20) else 12)
-    if opt.get("many"):  # several hundred BAT entries (below 2 GiB so that byte offsets fit TLC integers)
-        bs, n = 1 << 20, rng.randrange(300, 1500)
+    if opt.get("many") == "mid":  # several hundred BAT entries
+        bs, n = 1 << 20, rng.randrange(300, 1100)
+    elif opt.get("many"):  # as many as fit below 2 GiB (byte offsets must fit TLC integers)
+        bs, n = 1 << 20, rng.randrange(1100, 2040)
     npos = n + rng.randrange(0, 3)
     pos = list(range(npos))
     rng.shuffle(pos)
@@ -90,7 +92,7 @@ def make_trace(tid, rng, nops=25, **opt):
     fid = rng.randrange(0, 0x90)   # identity of this image: the pattern file id its payload carries
     vf, info = enc_vhdx.build(blocks, block_size=bs, sector_size=sector, disk_size=size_b, seqs=rng.choice([(5, 6), (6, 5), (0, 1), (7, 7)]),
                               reserved_bits=rng.choice([0, 0, 0x1FFFF]), leave_alloc=rng.random() < 0.3,
-                              layout=rng.choice(["std", "std", "regions-last", "bat-last"]), file_id=fid,
+                              layout=rng.choice(["std", "std", "regions-last", "bat-last"]), file_id=fid, phys_sector=rng.choice([512, 4096]),
                               meta_place=(lambda n_: rng.sample(range(n_), n_)) if rng.random() < 0.5 else None)
     b = disk.Built(open=lambda: _open(vf), cell=bs, size=size_b, bases={0: info["data_base"]}, sector=sector, fids={0: fid})
     s = b.open()
@@ -99,6 +101,11 @@ def make_trace(tid, rng, nops=25, **opt):
     record.random_ops(rec, rng, size_b, nops, unit=bs, big=min(3 * bs + 4096, 6 << 20), sectors_fn=s.read_sectors, ssize=sector)
     return {"tid": tid, "fmt": "vhdx", "img": {"n": n, "cb": 1, "st": st, "p": pp, "bm": [[] for _ in range(n)], "size": n, "parent": False},
             "sizeB": size_b, "sector": sector, "geo": b.geo(), "events": rec.events}
+
+
+def trace_for(tid, r, thorough):
+    """The history behind trace `tid` (run and --replay build the same one)."""
+    return make_trace(tid, r, 40 if thorough else 25, many=diskprop.many_of(tid))
 
 
 def large_blocks(ctx, rng, thorough):
@@ -148,7 +155,7 @@ def run(ctx):
     diskprop.replay_states(ctx, "vhdx", sts, PROFILES_THOROUGH if thorough else PROFILES_QUICK, build,
                            attrs_of=_attrs, cap=64 if thorough else 36, sectors_api=_sectors)
     large_blocks(ctx, random.Random(ctx.seed + 303), thorough)
-    diskprop.traces(ctx, "vhdx", lambda tid, r: make_trace(tid, r, 40 if thorough else 25, many=("mid" if tid % 8 == 0 else None)), 320 if thorough else 48,
+    diskprop.traces(ctx, "vhdx", lambda tid, r: trace_for(tid, r, thorough), 320 if thorough else 48,
                     "TraceDisk", "TraceDisk.cfg", lambda t: {"format": "vhdx", "block_size": t["geo"]["cellB"], "sector": t["sector"]})
 
 
@@ -161,7 +168,7 @@ def replay(ctx, body):
         return not r.violated
     if d.get("kind") in ("trace", "trace-gen"):
         tid = d.get("tid") or d["trace"]["tid"]
-        t = make_trace(tid, random.Random(body["seed"] * 9176 + tid), 40 if body.get("tier") == "thorough" else 25)
+        t = trace_for(tid, random.Random(body["seed"] * 9176 + tid), body.get("tier") == "thorough")
         v, _ = tracecheck.validate("TraceDisk", "TraceDisk.cfg", [t])
         print(v)
         return v[tid][0] == "accept"
